@@ -1422,8 +1422,9 @@ def table_start_fn(ctx: "Wtp", token: str) -> None:
 # something=other, something="other", something = 'other'
 attr_assignment_pair = (
     r"""\s*[^"'>/=\0-\037\s]+"""
-    r"""\s*=\s*("[^"]*"|'[^']*'|[^"'<>`\s]+)"""
-)
+    r"""\s*=\s*("[^"]*"|'[^']*'|[^"'<>`=\s]+)"""
+)  # (an unquoted value cannot contain "=": it would make the repetition
+# below ambiguous and its matching time exponential)
 
 attr_assignments_re = re.compile(
     attr_assignment_pair + r"""(""" + attr_assignment_pair + r""")*\s*$"""
